@@ -1,6 +1,7 @@
 package main
 
 import (
+	"go/token"
 	"go/types"
 	"strings"
 
@@ -89,8 +90,10 @@ func runC08(c *Ctx) {
 	c.rule("E2", "every pattern-carrying function forwards or applies its patterns", 15)
 	c.rule("E3", "loops over directory listings iterate a list filtered with the patterns, or guard each use of the item with !IsPathExcluded", 4)
 	c.rule("E5", "inside loops over directory listings the patterns are applied to the listed names, not to joined paths", 1)
+	c.rule("E6", "patterns are compiled one at a time: the regexp.Compile of NewExclusionRegexList sits in a loop over the patterns, its argument is not a concatenation of several of them, and a failed compilation is an error exit", 1)
 	c.rule("E4", "exported functions taking pattern strings compile them (error → error exit) before their first mutating effect", 8)
 
+	c.c08CompileEach()
 	s := &c08State{c: c, eff: c.computeEffects(), E: map[*ssa.Function][]int{}}
 	var members []*ssa.Function
 	for _, f := range c.srcFuncs(fsPkgRel) {
@@ -489,4 +492,67 @@ func exclusionStringParams(f *ssa.Function) []int {
 		}
 	}
 	return out
+}
+
+// c08CompileEach (E6): "invalid patterns are rejected". A pattern is judged valid on its own only if it is
+// compiled on its own: joining the patterns into one alternation lets syntax errors cancel across patterns
+// ("(x" and "y)" give the valid "(?:(x)|(?:y))").
+func (c *Ctx) c08CompileEach() {
+	f := c.fn(fsPkgRel, "NewExclusionRegexList")
+	c.FuncsSeen[fname(f)] = true
+	key := fname(f) + "/compile-each"
+	var compiles []*ssa.Call
+	allInstrs(f, func(in ssa.Instruction) {
+		if cl, ok := in.(*ssa.Call); ok {
+			n := calleeFull(&cl.Call)
+			if n == "regexp.Compile" || n == "regexp.MustCompile" || n == "regexp.CompilePOSIX" {
+				compiles = append(compiles, cl)
+			}
+		}
+	})
+	if len(compiles) == 0 {
+		c.violate("E6", key, c.pos(f.Pos()), "no regexp.Compile in NewExclusionRegexList: the patterns are not validated here")
+		return
+	}
+	for _, cl := range compiles {
+		if calleeFull(&cl.Call) == "regexp.MustCompile" {
+			c.violate("E6", key, c.ipos(cl), "MustCompile panics on an invalid pattern instead of reporting the 'invalid' kind")
+			return
+		}
+		if !inLoop(cl) {
+			c.violate("E6", key, c.ipos(cl), "the compilation is not inside a loop over the patterns: one regular expression is compiled for the whole set, so that syntax errors of different patterns can cancel each other (\"(x\" with \"y)\") and a set of invalid patterns is accepted")
+			return
+		}
+		joined := ""
+		for _, l := range sources(cl.Call.Args[0], deriveOpts{through: func(n string) bool { return n != "strings.Join" && !strings.HasSuffix(n, ".String") }}) {
+			if lc, ok := l.(*ssa.Call); ok {
+				if n := calleeFull(&lc.Call); n == "strings.Join" || n == "(*strings.Builder).String" || n == "(*bytes.Buffer).String" {
+					joined = n
+				}
+			}
+		}
+		if joined != "" {
+			c.violate("E6", key, c.ipos(cl), "the compiled expression is assembled with "+joined+": several patterns are validated as one")
+			return
+		}
+		errs := errResultsOf(cl)
+		okExit := len(errs) > 0
+		for _, e := range errs {
+			// on the non-nil side a return must be reachable immediately (no path back to the loop header that skips a return)
+			found := false
+			for _, r := range *e.Referrers() {
+				if b, isB := r.(*ssa.BinOp); isB && (b.Op == token.NEQ || b.Op == token.EQL) {
+					found = true
+				}
+			}
+			if !found {
+				okExit = false
+			}
+		}
+		if !okExit {
+			c.violate("E6", key, c.ipos(cl), "the error of regexp.Compile is not tested")
+			return
+		}
+	}
+	c.ok("E6", key, c.ipos(compiles[0]), "each pattern is compiled on its own inside the loop and a failure is tested")
 }
